@@ -22,7 +22,9 @@ from harness.popspec import Sub
 from harness.core import coq_list, coq_string, coqZ
 
 THEOREMS = ['C15_table_length', 'C15_table_row', 'C15_sample_major_table_length', 'C15_sample_major_table_row',
-            'C15_patients', 'C15_posterior_rows_joint', 'C15_posterior_rows_length', 'C15_pam_ids']
+            'C15_patients', 'C15_posterior_rows_joint', 'C15_posterior_rows_length', 'C15_pam_ids',
+            'C15_param_map_positionwise', 'C15_param_map_order_independent', 'C15_param_map_chained_refuted',
+            'C15_pam_partition', 'C15_pam_unique_counts_refuted']
 HEADER = '''From Coq Require Import ZArith List Bool String.
 From Chi Require Import Model.Predictive Tie.C08Tie Tie.C09Tie.
 Import ListNotations.
@@ -40,6 +42,15 @@ Definition c15_sot names times n vals expected : bool :=
 Definition c15_joint (n_chains n_draws : nat) (cols : list (list (list Z))) (seen : list Z) : bool :=
   existsb (lZ_eqb seen)
           (posterior_rows Z n_chains n_draws (map (fun col => fun c d => nth d (nth c col []) 0%Z) cols)).
+Fixpoint lstr_eqb (a b : list string) : bool :=
+  match a, b with [], [] => true | x :: a', y :: b' => String.eqb x y && lstr_eqb a' b' | _, _ => false end.
+(* the dataset variables a posterior predictive model reads for its parameters, given param_map *)
+Definition c15_pmap (m : list (string * string)) (names observed : list string) : bool :=
+  lstr_eqb (translate m names) observed.
+Fixpoint ln_eqb (a b : list nat) : bool :=
+  match a, b with [], [] => true | x :: a', y :: b' => Nat.eqb x y && ln_eqb a' b' | _, _ => false end.
+(* the model that generated each sample ID of an averaged model, given the model drawn for each sample *)
+Definition c15_pam (k : nat) (draws observed : list nat) : bool := ln_eqb (id_models (counts k draws)) observed.
 '''
 SCALE_T, SCALE_V = 8, 512
 _D = {}
@@ -324,6 +335,10 @@ def check_posterior(rng, exprs, label):
             dsname[j] = t
     ds, n_chains, n_draws = tagged_dataset(rng, dsname, ids, [dsname[j] for j, n in enumerate(names) if n in pooled])
     pp = chi.PosteriorPredictiveModel(pm, ds) if pmap is None else chi.PosteriorPredictiveModel(pm, ds, param_map=pmap)
+    if pmap is not None and hasattr(pp, '_parameter_names'):
+        exprs.append((label, 'c15_pmap %s %s %s' % (
+            coq_list(list(pmap.items()), lambda kv: '(%s, %s)' % (coq_string(kv[0]), coq_string(kv[1]))),
+            coq_list(names, coq_string), coq_list(list(pp._parameter_names), coq_string))))
     # several requests to one model object, for different individuals
     inds = [rng.choice(ids)]
     if len(ids) > 1 and rng.random() < 0.7:
@@ -448,6 +463,39 @@ def check_pam(rng):
     return None
 
 
+def check_pam_ids(rng, exprs, label):
+    """which model generated which sample ID: chi's table vs id_models (counts k draws), the draws replayed from the
+    seeded generator"""
+    import chi
+    pm = predictive(1)
+    names = pm.get_parameter_names()
+    k = rng.choice([2, 3, 4])
+    models = []
+    for m in range(k):
+        ds, _, _ = tagged_dataset(random.Random(m), names, ['a', 'b'], [])
+        models.append(chi.PosteriorPredictiveModel(pm, ds + 10.0 * m))
+    w = [rng.choice([0, 1, 1, 2, 5]) for _ in range(k)]
+    if sum(w) == 0:
+        w[rng.randrange(k)] = 1
+    n = rng.choice([1, 2, 3, 5, 8])
+    seed = rng.randrange(10 ** 6)
+    pam = chi.PAMPredictiveModel(models, w)
+    reset_logs()
+    df = pam.sample([1.0], n_samples=n, individual='b', seed=seed)
+    ids = sorted(int(x) for x in df['ID'])
+    if ids != list(range(1, n + 1)):
+        return 'PAMPredictiveModel(weights %s): the sample IDs of %d samples are %s' % (w, n, ids)
+    v = df.sort_values('ID')['Value'].to_numpy(dtype=float)
+    observed = [int(b) for b in np.digitize(v, [25.0 + 30.0 * j for j in range(k - 1)])]
+    p = np.array(w, dtype=float) / sum(w)
+    draws = [int(x) for x in np.random.default_rng(seed).choice(np.arange(k), p=p, size=n)]
+    if any(w[m] == 0 for m in observed):
+        return 'PAMPredictiveModel(weights %s): a sample was generated from a model of weight 0 (models per ID: %s)' % (
+            w, observed)
+    exprs.append((label, 'c15_pam %d %s %s' % (k, coq_list(draws), coq_list(observed))))
+    return None
+
+
 def check_regimen(rng, exprs, label):
     """include_regimen=True: every sample ID carries exactly the dose events scheduled up to the last requested time"""
     import chi
@@ -491,7 +539,7 @@ def check_regimen(rng, exprs, label):
 
 
 CHECKS = [('regimen', check_regimen), ('predictive', check_predictive), ('population', check_population), ('prior', check_prior),
-          ('posterior', check_posterior)]
+          ('posterior', check_posterior), ('averaged', check_pam_ids)]
 
 
 def oracle(case):
